@@ -2,13 +2,31 @@
 //@ assume: opaque external types (Difficulty, GameMods, TaikoDifficultyObjects, the skill types, the slice iterator) with external_body contracts: skill `process` / eval / clone do not touch the bookkeeping; the slice iterator `diff_objects_iter` is modelled by its fixed underlying sequence of hit flags and a position (std semantics of slice::Iter::next, assumed); RefCount::get hands out the object (type abstraction: `Ref<'_, T>` is treated as `&T`)
 //@ assume: data shapes declared by hand (fields only): TaikoDifficultyAttributes {max_combo, ..}, TaikoDifficultyObject {base_hit_type}, TaikoSkills {rhythm, reading, color, stamina, single_color_stamina}; `Self::Item` written out
 //@ assume: A-INV (healthy class: at least three objects, the first two are hits): idx <= total_hits; while idx < 2 the iterator is at 0, first_combos is Both and total_hits == 2 + hits among the difficulty objects; from idx == 2 on total_hits - idx == hits still ahead of the iterator; max_combo == idx. Established by `new` for such maps (not proved). Maps outside this class are the known findings F3 / F4.
+//@ obl: id=U12.taiko.nth.verus fn=TaikoGradualDifficulty::nth props=C15,C02,C05 tier=quick kind=proof twin=yes pair=U12.taiko.protocol.hhh
+//@ fns: TaikoGradualDifficulty::nth (Iterator::nth), TaikoGradualDifficulty::len
+//@ bound: unbounded: every map of the healthy class, every position, every n (incl. usize::MAX)
+//@ clause: for ALL such maps and n: pre: invariant. post: Some iff n < remaining; exactly min(n+1, remaining) values are consumed; max_combo' == idx' (nth counts the same hits as n+1 calls of next()); the early `?` exits inside the skipping loops are unreachable while hits are still owed; invariant preserved; no overflow / underflow of `take`
+//@ assume: R3 (for-range -> while), R11, local verified cmp::min
 //@ obl: id=U12.taiko.next.verus fn=TaikoGradualDifficulty::next props=C15,C02,C05 tier=quick kind=proof twin=yes pair=U12.taiko.protocol.hhh
 //@ fns: TaikoGradualDifficulty::next (Iterator::next), HitType::is_hit
 //@ bound: unbounded: every number of objects and every hit / non-hit pattern of the healthy class, every position
 //@ clause: for ALL such maps: pre: invariant. post: Some iff idx < total_hits; then idx' = idx+1 and max_combo' = idx' (the i-th value has max_combo == i: taiko max combo equals the number of hits), non-hits are skipped without producing a value; else idx is unchanged; invariant preserved; the iterator never runs past the end with hits still owed; no overflow
+//@ obl: id=U12.taiko.perf.verus fn=TaikoGradualPerformance::nth props=C15,C03,C05 tier=quick kind=proof twin=yes pair=U12.taiko.perf.hhh
+//@ fns: TaikoGradualPerformance::nth, TaikoGradualPerformance::next, TaikoGradualPerformance::last, TaikoGradualPerformance::len
+//@ bound: unbounded (healthy class); modular: checked against the contract of TaikoGradualDifficulty::nth proved in the same unit, not its body
+//@ clause: for ALL such maps and n: the gradual performance calculator's nth(state, n) consumes exactly min(n+1, remaining) values and returns None exactly when nothing remains; next == nth(0); last == nth(usize::MAX) consumes everything; len() == remaining
+//@ assume: the performance builder chain (performance/state/difficulty/passed_objects/calculate) is declared as external_body functions: calculate() returns Ok (own-mode attributes need no conversion); what the builder receives is obligation U12.taiko.perf.hhh (Kani)
 use vstd::prelude::*;
 verus! {
 global size_of usize == 8;
+
+/// std::cmp::min on usize (verified local definition; the extracted code calls `cmp::min`)
+pub mod cmp {
+    use vstd::prelude::*;
+    pub fn min(a: usize, b: usize) -> (r: usize)
+        ensures r == if a <= b { a } else { b }
+    { if a <= b { a } else { b } }
+}
 
 #[verifier::external_body] pub struct Difficulty { _p: () }
 #[verifier::external_body] pub struct GameMods { _p: () }
@@ -55,6 +73,15 @@ proof fn lemma_hits_nonneg(s: Seq<bool>, from: int)
 {
     if 0 <= from < s.len() { lemma_hits_nonneg(s, from + 1); }
 }
+
+proof fn lemma_hits_end(s: Seq<bool>, from: int)
+    requires from >= s.len()
+    ensures hits_from(s, from) == 0
+{}
+proof fn lemma_hits_step(s: Seq<bool>, from: int)
+    requires 0 <= from < s.len()
+    ensures hits_from(s, from) == (if s[from] { 1int } else { 0int }) + hits_from(s, from + 1)
+{}
 
 impl Iter<'static, RefCount<TaikoDifficultyObject>> {
     #[verifier::external_body]
@@ -108,6 +135,31 @@ impl DifficultyValues {
     { unimplemented!() }
 }
 
+#[verifier::external_body] pub struct TaikoScoreState { _p: () }
+#[verifier::external_body] pub struct TaikoPerformanceAttributes { _p: () }
+#[verifier::external_body] pub struct TaikoPerformance { _p: () }
+#[verifier::external_body] #[derive(Debug)] pub struct ConvertError { _p: () }
+impl Clone for Difficulty {
+    #[verifier::external_body]
+    fn clone(&self) -> Self { unimplemented!() }
+}
+impl TaikoDifficultyAttributes {
+    #[verifier::external_body]
+    fn performance(self) -> TaikoPerformance { unimplemented!() }
+}
+impl TaikoPerformance {
+    #[verifier::external_body]
+    fn state(self, state: TaikoScoreState) -> (r: Self) { unimplemented!() }
+    #[verifier::external_body]
+    fn difficulty(self, difficulty: Difficulty) -> (r: Self) { unimplemented!() }
+    #[verifier::external_body]
+    fn passed_objects(self, passed_objects: u32) -> (r: Self) { unimplemented!() }
+    #[verifier::external_body]
+    fn calculate(self) -> (r: Result<TaikoPerformanceAttributes, ConvertError>)
+        ensures r.is_ok()
+    { unimplemented!() }
+}
+
 /*@extract struct file=src/taiko/difficulty/gradual.rs name=TaikoGradualDifficulty */
 
 impl TaikoGradualDifficulty {
@@ -124,6 +176,65 @@ impl TaikoGradualDifficulty {
         &&& (self.idx >= 2 ==> self.total_hits - self.idx == hits_from(s, p))
     }
     pub closed spec fn remaining(&self) -> int { self.total_hits - self.idx }
+
+/*@extract fn file=src/taiko/difficulty/gradual.rs impl=ExactSizeIterator for=TaikoGradualDifficulty name=len ret=r
+@spec
+        requires self.inv()
+        ensures r == self.remaining()
+*/
+
+/*@extract fn file=src/taiko/difficulty/gradual.rs impl=Iterator for=TaikoGradualDifficulty name=nth ret=r subst=Self::Item=>TaikoDifficultyAttributes
+@spec
+        requires old(self).inv()
+        ensures
+            final(self).inv(),
+            final(self).total_hits == old(self).total_hits,
+            r.is_some() <==> n < old(self).remaining(),
+            final(self).idx == old(self).idx + (if n < old(self).remaining() { n + 1 } else { old(self).remaining() }),
+            r.is_some() ==> r.unwrap().max_combo as int == final(self).idx,
+@start
+        proof { lemma_hits_nonneg(it_seq(self.diff_objects_iter), it_pos(self.diff_objects_iter)); lemma_hits_nonneg(it_seq(self.diff_objects_iter), 0); }
+@before 1 `match (take, self.idx) {`
+        let ghost take0 = take;
+@loop 1
+            invariant
+                self.inv(),
+                self.total_hits == old(self).total_hits,
+                it_seq(self.diff_objects_iter) == it_seq(old(self).diff_objects_iter),
+                __for_i1 <= take,
+                self.idx >= 2 || take == 0,
+                self.idx + (take - __for_i1) == old(self).idx + take0,
+                take0 as int == (if n < old(self).remaining() - 1 { n as int } else if old(self).remaining() == 0 { 0 } else { old(self).remaining() - 1 }),
+                take0 == 0 || old(self).idx + take0 <= old(self).total_hits - 1,
+            decreases take - __for_i1
+@loop 2
+                invariant_except_break
+                    self.idx == idx_in, self.attrs.max_combo as int == self.idx,
+                    self.idx + (take - __for_i1) == old(self).idx + take0,
+                    self.total_hits - self.idx == hits_from(it_seq(self.diff_objects_iter), it_pos(self.diff_objects_iter)),
+                invariant
+                    self.idx >= 2,
+                    self.total_hits == old(self).total_hits, self.total_hits < u32::MAX,
+                    self.first_combos is Both,
+                    it_seq(self.diff_objects_iter) == it_seq(old(self).diff_objects_iter),
+                    n_diff(self.diff_objects) == it_seq(self.diff_objects_iter).len(), it_seq(self.diff_objects_iter).len() >= 1,
+                    0 <= it_pos(self.diff_objects_iter) <= it_seq(self.diff_objects_iter).len(),
+                    __for_i1 < take,
+                    take0 == 0 || old(self).idx + take0 <= old(self).total_hits - 1,
+                ensures
+                    self.idx == idx_in + 1, self.attrs.max_combo as int == self.idx,
+                    self.idx + (take - __for_i1) == old(self).idx + take0 + 1,
+                    self.total_hits - self.idx == hits_from(it_seq(self.diff_objects_iter), it_pos(self.diff_objects_iter)),
+                decreases it_seq(self.diff_objects_iter).len() - it_pos(self.diff_objects_iter)
+@before 1 `loop {`
+            let ghost idx_in = self.idx;
+@before 1 `let curr = self.diff_objects_iter.next()?;`
+                proof {
+                    let s = it_seq(self.diff_objects_iter);
+                    let p = it_pos(self.diff_objects_iter);
+                    if p >= s.len() { lemma_hits_end(s, p); } else { lemma_hits_step(s, p); lemma_hits_nonneg(s, p + 1); }
+                }
+*/
 
 /*@extract fn file=src/taiko/difficulty/gradual.rs impl=Iterator for=TaikoGradualDifficulty name=next ret=r subst=Self::Item=>TaikoDifficultyAttributes
 @spec
@@ -156,6 +267,45 @@ impl TaikoGradualDifficulty {
         proof { lemma_hits_nonneg(it_seq(self.diff_objects_iter), it_pos(self.diff_objects_iter)); lemma_hits_nonneg(it_seq(self.diff_objects_iter), 0); }
 @before 1 `let curr = self.diff_objects_iter.next()?;`
                 proof { lemma_hits_nonneg(it_seq(self.diff_objects_iter), it_pos(self.diff_objects_iter) + 1); }
+*/
+}
+
+/*@extract struct file=src/taiko/performance/gradual.rs name=TaikoGradualPerformance */
+
+impl TaikoGradualPerformance {
+/*@extract fn file=src/taiko/performance/gradual.rs impl=TaikoGradualPerformance name=nth ret=r
+@spec
+        requires old(self).difficulty.inv()
+        ensures
+            final(self).difficulty.inv(),
+            r.is_some() <==> old(self).difficulty.remaining() > 0,
+            final(self).difficulty.idx == old(self).difficulty.idx
+                + (if n < old(self).difficulty.remaining() { n + 1 } else { old(self).difficulty.remaining() }),
+            final(self).difficulty.remaining() == old(self).difficulty.remaining() - (final(self).difficulty.idx - old(self).difficulty.idx),
+*/
+
+/*@extract fn file=src/taiko/performance/gradual.rs impl=TaikoGradualPerformance name=next ret=r
+@spec
+        requires old(self).difficulty.inv()
+        ensures
+            final(self).difficulty.inv(),
+            r.is_some() <==> old(self).difficulty.remaining() > 0,
+            final(self).difficulty.idx == old(self).difficulty.idx + (if old(self).difficulty.remaining() > 0 { 1int } else { 0int }),
+*/
+
+/*@extract fn file=src/taiko/performance/gradual.rs impl=TaikoGradualPerformance name=last ret=r
+@spec
+        requires old(self).difficulty.inv()
+        ensures
+            final(self).difficulty.inv(),
+            r.is_some() <==> old(self).difficulty.remaining() > 0,
+            final(self).difficulty.remaining() == 0,
+*/
+
+/*@extract fn file=src/taiko/performance/gradual.rs impl=TaikoGradualPerformance name=len ret=r
+@spec
+        requires self.difficulty.inv()
+        ensures r == self.difficulty.remaining()
 */
 }
 
